@@ -82,6 +82,9 @@ func load() (*Loaded, error) {
 	for _, f := range v.eff.all {
 		v.fnByKey[fnKey(f)] = f
 	}
+	if errs := v.expandConstructs(); len(errs) > 0 {
+		return nil, fmt.Errorf("construct table: %s", strings.Join(errs, "; "))
+	}
 	L.v = v
 	return L, nil
 }
